@@ -60,6 +60,9 @@ def main():
         subprocess.run([sys.executable, os.path.join(VERIF, "gen", "symops.py")], capture_output=True)
         subprocess.run([sys.executable, os.path.join(VERIF, "gen", "symops2.py")], capture_output=True)
         subprocess.run([sys.executable, os.path.join(VERIF, "gen", "symround.py")], capture_output=True)
+        subprocess.run([sys.executable, os.path.join(VERIF, "gen", "symroundops.py")], capture_output=True)
+        # compiled files of the generated tables must again be those of /repo's own tables
+        subprocess.run("make -k -j16 >/dev/null 2>&1", shell=True, cwd=os.path.join(VERIF, "coq"))
     return 0
 
 
